@@ -28,4 +28,10 @@ ProcsB1    == {"p1", "p2"}
 HandlesB1  == {"h1a", "h1b"}
 MemOfB1    == [h \in HandlesB1 |-> "m1"]
 HandleOfB1 == [p \in ProcsB1 |-> IF p = "p1" THEN "h1a" ELSE "h1b"]
+
+(* (B1S) one member, two goroutines sharing its one handle: the smallest instance for the parameters *)
+(* LocalWaitTimeout and EvictOnUnlock                                                               *)
+HandlesB1S  == {"h1"}
+MemOfB1S    == [h \in HandlesB1S |-> "m1"]
+HandleOfB1S == [p \in ProcsB1 |-> "h1"]
 =============================================================================
